@@ -71,8 +71,10 @@ CLAIMED = {
             'application client on the one process-global generator and injects '
             'ValueError/MemoryError/KeyboardInterrupt at crash points inside sampler bodies; '
             'bit-exact global-state preservation and isolated-twin stream equality after every '
-            'operation; crash points of one representative call per sampler class enumerated '
-            '(all of them in the thorough tier).',
+            'operation, against an in-process twin and a twin forked into its own process '
+            '(immune to class-level or module-level shared state); crash points of one '
+            'representative call per sampler class enumerated (all of them in the thorough '
+            'tier).',
             'Twin and live run the same code; thread-level interleavings inside the swap are out '
             'of scope; scipy internal draws seen only through state digests.', '4/C15'),
     'C16': ('allocator-fault simulation + independent regular-vine checker',
@@ -89,7 +91,8 @@ CLAIMED = {
     'C19': ('call-history simulation against a history-free twin',
             'Seeded histories of fits (constant/non-constant/refusing/invalid data, injected '
             'plug-in failures, differing allocator garbage) on every model class; after the last '
-            'fit the live model must be observably identical to a fresh model fitted once; '
+            'fit the live model must be observably identical to a fresh model fitted once, also '
+            'after the object was used between fits or a fit was interrupted at a crash point; '
             'misuse must raise NotFittedError/ValueError per the reference model.',
             'Twin and live run the same code: a fit that is wrong but history-independent is '
             'invisible (C03/C04).', '4/C19'),
